@@ -285,7 +285,7 @@ fn check_literals(case: &Value) -> Value {
             let class = lit_class(lit);
             match got {
                 Err(e) => {
-                    if expected != Lit::Overflow && bads.len() < 40 {
+                    if (expected != Lit::Overflow || e.contains("Panic")) && bads.len() < 40 {
                         bads.push(json!({
                             "sig": format!("C10|literal-rejected|{}|{}|{}", class, ctx, kind_name(&expected)),
                             "summary": format!("X = {}  is rejected ({}) but the literal denotes {}", text, e, expected.describe()),
@@ -372,6 +372,7 @@ pub fn worker(case: &Value) -> Value {
         "chains" => check_chains(case),
         "lits" => check_literals(case),
         "exprs" => check_exprs(case),
+        "close" => check_close_literals(),
         other => json!({"machinery": format!("unknown C10 case kind {}", other)}),
     }
 }
@@ -421,9 +422,102 @@ fn literal_texts(tier: &str) -> Vec<String> {
             }
         }
     }
+    // hexadecimal / octal literals with far more digits than a LONG holds (up to beyond 64 and 128 bits)
+    for n in [9usize, 15, 16, 17, 20, 32, 33, 40] {
+        out.push(format!("&H{}", "F".repeat(n)));
+        out.push(format!("&H1{}", "0".repeat(n - 1)));
+        out.push(format!("&h{}1", "0".repeat(n)));
+    }
+    for n in [12usize, 21, 22, 23, 30, 43, 44] {
+        out.push(format!("&O{}", "7".repeat(n)));
+        out.push(format!("&O2{}", "0".repeat(n - 1)));
+        out.push(format!("&o{}1", "0".repeat(n)));
+    }
+    // fractions with many digits next to the midpoint of two adjacent SINGLEs / DOUBLEs: a conversion that rounds
+    // twice (through a wider or a narrower type) picks the wrong neighbour
+    for k in 24..=31u32 {
+        let m = (1u64 << k) + (1u64 << (k - 24));
+        out.push(format!("{}.0000000001", m));
+        out.push(format!("{}.9999999999", m - 1));
+        out.push(format!("{}.00000000000000000001", m));
+        out.push(format!("{}.5", m));
+    }
+    for k in 53..=56u32 {
+        let m = (1u128 << k) + (1u128 << (k - 53));
+        out.push(format!("{}.0000000001#", m));
+        out.push(format!("{}.9999999999#", m - 1));
+    }
+    for s in [
+        "1.0000000596046447753906251", "1.0000000596046447753906249", "1.000000059604644775390625", "0.50000002980232238769531251", "0.50000002980232238769531249",
+        "1.00000000000000011102230246251565404236316680908203126#", "1.00000000000000011102230246251565404236316680908203124#", ".1000000000000000055511151231257827", ".1000000000000000055511151231257827#",
+        "3.4028234663852885981170418348451692544", "16777216.000000000000000000000000000001", "0.000000000000000000000000000000000000000000001",
+    ] {
+        out.push(s.to_string());
+    }
     out.sort();
     out.dedup();
     out
+}
+
+/// Run level: two literals closer together than 0.00001 (or further apart) loaded one after the other, in
+/// assignments and inside one expression: each keeps its own value.
+fn close_literal_program() -> (String, String, Vec<String>) {
+    let mut text = String::new();
+    let mut want = String::new();
+    let mut labels = vec![];
+    let bases = ["0.5", "1.5", "100.25", "0.000001", "2.000001", "16777216.0", "0.1", "7.0"];
+    let deltas = ["0.000001", "0.000002", "0.00001", "0.0001", "0.5"];
+    let b2s = |b: bool| if b { "-1 " } else { " 0 " };
+    for dbl in [false, true] {
+        for x in bases {
+            for d in deltas {
+                // y = x + d as a decimal text (both have at most 6 decimals)
+                let xi = (x.parse::<f64>().unwrap() * 1e6).round() as i64;
+                let di = (d.parse::<f64>().unwrap() * 1e6).round() as i64;
+                let yi = xi + di;
+                let y = format!("{}.{:06}", yi / 1_000_000, yi % 1_000_000);
+                let sfx = if dbl { "#" } else { "" };
+                let (xs, ys) = (format!("{}{}", x, sfx), format!("{}{}", y, sfx));
+                let (gt, eq) = if dbl {
+                    let (a, b): (f64, f64) = (x.parse().unwrap(), y.parse().unwrap());
+                    (b > a, b == a)
+                } else {
+                    let (a, b): (f32, f32) = (x.parse().unwrap(), y.parse().unwrap());
+                    (b > a, b == a)
+                };
+                let v = if dbl { "#" } else { "!" };
+                // assignments one after the other, then comparisons of the variables and of the literals themselves
+                text.push_str(&format!("A{v} = {xs}: B{v} = {ys}: PRINT B{v} > A{v}; B{v} = A{v}; {ys} > {xs}; {xs} = {ys}; {xs} - {ys} < 0\n", v = v, xs = xs, ys = ys));
+                want.push_str(&format!("{}{}{}{}{}\r\n", b2s(gt), b2s(eq), b2s(gt), b2s(eq), b2s(gt)));
+                labels.push(format!("{} and {}", xs, ys));
+                // the other order, after an unrelated INTEGER assignment
+                text.push_str(&format!("N% = 3: B{v} = {ys}: A{v} = {xs}: PRINT A{v} < B{v}; A{v} <> B{v}\n", v = v, xs = xs, ys = ys));
+                want.push_str(&format!("{}{}\r\n", b2s(gt), b2s(!eq)));
+                labels.push(format!("{} after {}", xs, ys));
+            }
+        }
+    }
+    (text, want, labels)
+}
+
+fn check_close_literals() -> Value {
+    let (text, want, labels) = close_literal_program();
+    let o = crate::bind::run_pipeline(&text, &crate::bind::RunOpts::default());
+    let got = o.stdout_str();
+    let mut bads = vec![];
+    if o.end != vcore::End::Normal || got != want {
+        let gl: Vec<&str> = got.split("\r\n").collect();
+        let wl: Vec<&str> = want.split("\r\n").collect();
+        let mut first = format!("the program ended with {}", o.end.class());
+        for i in 0..wl.len() {
+            if gl.get(i) != Some(&wl[i]) {
+                first = format!("statement {} ({}): expected {:?}, got {:?}", i + 1, labels.get(i).cloned().unwrap_or_default(), wl[i], gl.get(i));
+                break;
+            }
+        }
+        bads.push(json!({"sig": "C10|close-literals|output", "summary": format!("two numeric literals loaded one after the other do not keep their own values — {}", first), "text": text, "case": {"k": "close"}}));
+    }
+    json!({"n": labels.len(), "nontrivial": labels.len(), "bad": bads, "sample": {"group": "close literals", "text": super::truncate_text(&text, 600)}})
 }
 
 pub fn drive(tier: &str) -> i32 {
@@ -470,6 +564,7 @@ pub fn drive(tier: &str) -> i32 {
     for c in lits.chunks(400) {
         cases.push(json!({"k": "lits", "lits": c}));
     }
+    cases.push(json!({"k": "close"}));
     let cap = run.wall_cap_s;
     let t0 = run.reporter.start;
     let total_cases = cases.len();
@@ -483,7 +578,7 @@ pub fn drive(tier: &str) -> i32 {
         run.capped = true;
     }
     let mut ev = Evidence::new("exploration");
-    ev.set("rule", "(a) every operator sequence of the planned lengths over the 13 binary operators on operands A..F, with the listed unary / parenthesis variant schemes, is spelled, parsed by the real parser (500 per program) and its tree compared with an independent precedence climber (unary minus > * / > MOD > + - > relational > NOT > AND > OR, left-associative), modulo re-association inside homogeneous AND or OR chains; non-trivial = operators of at least two different rank classes, or a unary operator / parenthesis, are involved. (b) every literal text of the lattice is checked plain, after a unary minus, after a double unary minus and after a binary minus: node kind and exact value from the parse tree. Enumeration without repeats.");
+    ev.set("rule", "(a) every operator sequence of the planned lengths over the 13 binary operators on operands A..F, with the listed unary / parenthesis variant schemes, is spelled, parsed by the real parser (500 per program) and its tree compared with an independent precedence climber (unary minus > * / > MOD > + - > relational > NOT > AND > OR, left-associative), modulo re-association inside homogeneous AND or OR chains; non-trivial = operators of at least two different rank classes, or a unary operator / parenthesis, are involved. (b) every literal text of the lattice is checked plain, after a unary minus, after a double unary minus and after a binary minus: node kind and exact value from the parse tree; the lattice includes hexadecimal / octal literals of up to 44 digits (beyond 64 and 128 bits: rejected, never a panic) and fractions of up to 55 digits next to the midpoint of two adjacent SINGLEs / DOUBLEs. (c) run level: 80 pairs of SINGLE / DOUBLE literals 0.000001 .. 0.5 apart, assigned one after the other in both orders and compared as variables and as literals inside one expression — each literal keeps its own value (expected truth values from Rust's parse of the digits). Enumeration without repeats.");
     ev.set("exhaustive", !run.capped);
     ev.set("plan", json!(plan_report));
     ev.set("literal_texts", lit_count as u64);
